@@ -86,10 +86,31 @@ suite does not pin, deliver only one change or write meta.json with "failed": "<
 """
 
 
+TIMING = """
+## Style of this round: timing, ordering and formatting freedoms
+In this round do NOT write refactors or message rewordings. For each property write TWO changes (`<ID>-e`, `<ID>-f`; put them in
+`{out}/<ID>-e/` and `{out}/<ID>-f/`) that change REAL, OBSERVABLE behaviour which neither the statement nor the documentation
+fixes, of these two kinds:
+* `-e` **timing / ordering**: when something happens rather than what happens — complete synchronously instead of on the next
+  loop iteration (or the reverse) where no document promises either; change the number of event-loop iterations, read/write
+  system calls, timer registrations or intermediate callbacks an operation takes; coalesce or split writes / reads / chunks;
+  change the relative order of INDEPENDENT effects (two log records, two callbacks for different objects, cleanup steps, headers
+  for different names, wake-ups of waiters that the statement does not order); batch work; add or remove a yield point.
+  The statement's own ordering and exactly-once promises must of course still hold.
+* `-f` **formatting / representation of output**: spelling, case, whitespace, quoting, ordering and optional parts of what the
+  library EMITS (header names' case and order, optional parameters and their order, hex case, padding, line breaks in generated
+  code, default values that are equivalent, equivalent encodings of the same value, extra optional fields a peer must ignore),
+  as far as the RFCs / documentation allow and the consumer named in the statement still reads the same thing.
+The existing test suite must still pass (it pins a lot; read the tests touching your code first). State precisely in meta.json
+which sentence of the statement / docs / RFC leaves this open ("permitted_by"). If a property leaves no such freedom that the test
+suite does not pin, deliver only one change or write meta.json with "failed": "<why>".
+"""
+
+
 def main():
     tag, n, outdir = sys.argv[1], int(sys.argv[2]), sys.argv[3]
     only = None
-    style = "freedom" if "--freedom" in sys.argv else "refactor"
+    style = "freedom" if "--freedom" in sys.argv else ("timing" if "--timing" in sys.argv else "refactor")
     props = [json.loads(l) for l in open(os.path.join(V, "properties.jsonl"))]
     if only:
         props = [p for p in props if p["id"] in only]
@@ -98,12 +119,14 @@ def main():
     # interleave so one author gets properties of different areas
     groups = [[] for _ in range(n)]
     for i, p in enumerate(props):
-        groups[(i * 3 + i // n) % n if style == "freedom" else i % n].append(p)
+        groups[(i * 3 + i // n) % n if style == "freedom" else ((i * 5 + i // n) % n if style == "timing" else i % n)].append(p)
     for k, g in enumerate(groups, 1):
         wt = "/tmp/seed/s%d" % k
         txt = TEMPLATE.format(tag="%s-%d" % (tag, k), wt=wt, out=outdir)
         if style == "freedom":
             txt = txt.replace("## Properties\n", FREEDOM.format(out=outdir) + "\n## Properties\n")
+        if style == "timing":
+            txt = txt.replace("## Properties\n", TIMING.format(out=outdir) + "\n## Properties\n")
         for p in g:
             anchors = p.get("anchors")
             txt += "\n### %s — %s\n\n**Statement.** %s\n\n**Quantified over.** %s\n\n**Where the mechanism lives.** %s\n" % (
